@@ -14,6 +14,7 @@ import (
 	"go.uber.org/zap"
 
 	"verifsim/ref"
+	"verifsim/simfs"
 	"verifsim/simrt"
 	"verifsim/stubs"
 )
@@ -253,6 +254,9 @@ type engSpec struct {
 	Stalls      bool
 	CancelAt    time.Duration // >0: caller cancels the run at this simulated instant
 	GunErrAt    int           // k-th gun creation fails (-1 never); k=0 is the warm-up gun
+	// RealProvider: "" = core num provider; "uri" / "json" = the real uri provider / generic json provider over a file
+	// on the simulated disk, bounded by limit = Ammo
+	RealProvider string
 }
 
 func (s engSpec) describe() map[string]any {
@@ -296,7 +300,7 @@ func runEngine(r *R, sp engSpec, horizon time.Duration) *engResult {
 		}
 		res.Metrics = newMetrics()
 		pool := engine.InstancePoolConfig{
-			Provider:        &stubs.RecProvider{Provider: provider.NewNum(sp.Ammo), Log: log},
+			Provider:        &stubs.RecProvider{Provider: engProvider(sp), Log: log},
 			Aggregator:      &stubs.RecAggregator{Aggregator: aggregator.NewDiscard(), Log: log},
 			NewGun:          fac.New,
 			RPSPerInstance:  sp.PerInstance,
@@ -332,4 +336,27 @@ func runEngine(r *R, sp engSpec, horizon time.Duration) *engResult {
 		res.Evs = res.Log.Snapshot()
 	}
 	return res
+}
+
+// engProvider builds the ammo provider of an engine-level run (call inside the bubble).
+func engProvider(sp engSpec) core.Provider {
+	if sp.RealProvider == "" {
+		return provider.NewNum(sp.Ammo)
+	}
+	disk := simfs.New()
+	var conf map[string]interface{}
+	switch sp.RealProvider {
+	case "uri":
+		disk.WriteFile("/ammo/ammo.uri", []byte("/a t1\n/b t2\n/c\n[X-H: v]\n/d t4\n/e\n"))
+		conf = map[string]interface{}{"type": "uri", "file": "/ammo/ammo.uri", "limit": sp.Ammo}
+	default:
+		disk.WriteFile("/ammo/ammo.json", []byte("{\"n\": 1}\n{\"n\": 2}\n{\"n\": 3}\n"))
+		conf = map[string]interface{}{"type": "json", "source": map[string]interface{}{"type": "file", "path": "/ammo/ammo.json"}, "limit": sp.Ammo, "ammo-queue-size": 4}
+	}
+	GlobalFs.Set(disk)
+	p, err := decodeProvider(conf)
+	if err != nil {
+		panic(fmt.Sprintf("provider config does not decode: %v", err))
+	}
+	return p
 }
